@@ -26,3 +26,20 @@ fn c22_arg_decoders() {
         None => assert!(b & 31 != 0, "C22 DivArgs rejects exactly non-zero reserved bits"),
     }
 }
+
+//@ props=C05 tier=quick class=proved-fin -- selector decoding: GMArgs::try_from over all 2^18 immediates is defined exactly on 0x01..=0x08, GTFArgs::try_from over all 2^12 immediates is defined exactly on the discriminants of the enum, each decoding back to its code; everything else is InvalidMetadataIdentifier
+#[kani::proof]
+fn c05_selector_decoding() {
+    let a: u32 = kani::any();
+    kani::assume(a < (1 << 18));
+    match GMArgs::try_from(a) {
+        Ok(g) => { assert!(a >= 1 && a <= 8, "C05 GM selectors are 0x01..=0x08"); assert!(g as u32 == a); }
+        Err(e) => { assert!(a == 0 || a > 8); assert!(e == PanicReason::InvalidMetadataIdentifier); }
+    }
+    let b: u16 = kani::any();
+    kani::assume(b < (1 << 12));
+    match GTFArgs::try_from(b) {
+        Ok(g) => assert!(g as u16 == b, "C05 a GTF selector decodes to the variant with that code"),
+        Err(e) => assert!(e == PanicReason::InvalidMetadataIdentifier, "C05 undefined GTF selector"),
+    }
+}
